@@ -867,6 +867,43 @@ fn check_csv_files(rep: &mut Report, dir: &std::path::Path) {
 
 /// a public identifier in the shape of a temporary one (`!A8`, `!D5`): the API accepts it and (since the fix recorded for C03)
 /// finds the item by it; the serialisation formats reserve that shape for temporary identifiers
+/// annotations without public identifiers in a store that has a sub-store: the files name them by temporary identifier
+/// (`!A<handle>`), the sub-store's in its own file; an annotation that targets one of them keeps its target over the round trip
+fn check_idless_next_to_substore(rep: &mut Report, dir: &std::path::Path) {
+    let d = dir.join("idless-sub");
+    std::fs::remove_dir_all(&d).ok();
+    std::fs::create_dir_all(&d).ok();
+    let main = d.join("main.store.stam.json").to_str().unwrap().to_string();
+    let ctx = vec!["a store with annotations without identifiers: #0 (root, on \"hello\"), #1 (in a sub-store, on \"world\"), #2 (root, on \"ll\"), and the annotation \"top\" that targets #2; saved and loaded".to_string()];
+    rep.count("json:substores:idless-annotations-next-to-a-substore");
+    let describe = |st: &AnnotationStore| -> Vec<String> {
+        let mut v: Vec<String> = st.annotations().map(|a| format!("{} text {:?} targets {:?}", a.id().map(|x| x.to_string()).unwrap_or_else(|| "(no id)".into()), a.text_join("|"), a.annotations_in_targets(AnnotationDepth::One).map(|t| t.text_join("|")).collect::<Vec<_>>())).collect();
+        v.sort();
+        v
+    };
+    let r = guarded(std::panic::AssertUnwindSafe(|| -> Result<(Vec<String>, Vec<String>), StamError> {
+        let mut store = AnnotationStore::new(Config::default()).with_id("main").with_filename(&main);
+        let res = store.add_resource(TextResourceBuilder::new().with_id("r").with_text("hello world"))?;
+        store.annotate(AnnotationBuilder::new().with_target(SelectorBuilder::textselector("r", Offset::simple(0, 5))))?;
+        let sub = store.add_new_substore("sub", "sub.store.stam.json")?;
+        <AnnotationStore as AssociateSubStore<TextResource>>::associate_substore(&mut store, res, sub)?;
+        let a1 = store.annotate(AnnotationBuilder::new().with_target(SelectorBuilder::textselector("r", Offset::simple(6, 11))))?;
+        <AnnotationStore as AssociateSubStore<Annotation>>::associate_substore(&mut store, a1, sub)?;
+        let a2 = store.annotate(AnnotationBuilder::new().with_target(SelectorBuilder::textselector("r", Offset::simple(2, 4))))?;
+        store.annotate(AnnotationBuilder::new().with_id("top").with_target(SelectorBuilder::AnnotationSelector(BuildItem::Handle(a2), None)))?;
+        let before = describe(&store);
+        store.save()?;
+        let loaded = AnnotationStore::from_file(&main, Config::default())?;
+        Ok((before, describe(&loaded)))
+    }));
+    match r {
+        Ok(Ok((before, after))) => if before != after { let (x, y) = first_diff(&before, &after); rep.fail("oracle", "C05/substores/idless-annotation-target-differs", ctx, &x, &y); },
+        Ok(Err(e)) => rep.fail("oracle", "C05/substores/idless-annotations-next-to-a-substore-fail", ctx, "saved and loaded", &format!("{}", e)),
+        Err(m) => rep.fail("panic", "C05/substores/idless-annotations-next-to-a-substore-panic", ctx, "saved and loaded", &m),
+    }
+    std::fs::remove_dir_all(&d).ok();
+}
+
 /// public identifiers in the shape of a temporary identifier of ANOTHER kind (`!R0` on an annotation, `!A1` on annotation
 /// data): ordinary identifiers, which the round trip keeps
 fn check_other_kind_shaped_public_ids(rep: &mut Report) {
@@ -1134,7 +1171,7 @@ pub fn run(opts: &Opts) -> Report {
         for f in rep.failures.iter_mut().skip(n0) { if f.kind != "model" { f.signature = format!("{}/edge-value/{}", f.signature, name); } }
     }
     check_temp_shaped_public_ids(&mut rep, property, &dir);
-    if property.map(|p| p == "C05").unwrap_or(true) { check_other_kind_shaped_public_ids(&mut rep); }
+    if property.map(|p| p == "C05").unwrap_or(true) { check_other_kind_shaped_public_ids(&mut rep); check_idless_next_to_substore(&mut rep, &dir); }
     if property.map(|p| p == "C15").unwrap_or(true) { check_csv_files(&mut rep, &dir); }
     if property.map(|p| p == "C05").unwrap_or(true) { check_alignment_in_complex_selectors(&mut rep, &dir); }
     if property.map(|p| p == "C05").unwrap_or(true) { for i in 0..12 { check_substores(&mut rep, &dir, i); } for i in 0..108 { check_merge(&mut rep, &dir, i); } }
